@@ -139,11 +139,23 @@ impl Sim for FetcherSim {
                 steps: vec![],
                 live_holder: 0,
                 live_keys: vec![],
-                glue: Some(glue::Glue {
-                    capacity: rng.urange(2, 6),
-                    n_far: rng.urange(21, 40),
-                    n_near: rng.urange(0, 3),
-                    arrivals: (0..n_arr).map(|_| if rng.chance(1, 2) { 0 } else { rng.below(1 << 16) as u32 }).collect(),
+                glue: Some(if rng.chance(1, 3) {
+                    // variant 1: a periodic list consisting mostly of records the node holds (see glue.rs)
+                    glue::Glue {
+                        capacity: rng.urange(6, 30),
+                        n_far: rng.urange(1, 3),
+                        n_near: rng.urange(0, 2),
+                        arrivals: vec![rng.below(1 << 16) as u32, rng.below(1 << 16) as u32],
+                        variant: 1,
+                    }
+                } else {
+                    glue::Glue {
+                        capacity: rng.urange(2, 6),
+                        n_far: rng.urange(21, 40),
+                        n_near: rng.urange(0, 3),
+                        arrivals: (0..n_arr).map(|_| if rng.chance(1, 2) { 0 } else { rng.below(1 << 16) as u32 }).collect(),
+                        variant: 0,
+                    }
                 }),
             };
         }
